@@ -199,7 +199,7 @@ func genC19parse(g *G) {
 	for i := 0; i < nb; i++ {
 		b := bg.bundle()
 		s := b.files[0].source()
-		if _, err := parse.SoyFile("x", s); err != nil {
+		if _, err := soyFileSafe("x", s); err != nil {
 			continue
 		}
 		lines := strings.Split(s, "\n")
